@@ -32,6 +32,7 @@ UIDS = {
     "move": "1.2.840.10008.5.1.4.1.2.1.2",
 }
 CXID = {"find": 1, "get": 3, "move": 5}
+SIDE_UID, SIDE_CX = "1.2.840.10008.1.20.1", 7  # Storage Commitment Push Model: N-EVENT-REPORT requests
 OVERFLOW_SIG = "cancel-overflow:matching-cancel-dropped-with-10-pending"
 
 _IDENT = None
@@ -72,8 +73,13 @@ class Rig:
             cx.result = 0
             cx._as_scp, cx._as_scu = True, False
             cxs[cx.context_id] = cx
+        cx = build_context(SIDE_UID, ["1.2.840.10008.1.2"])
+        cx.context_id, cx.result = SIDE_CX, 0
+        cx._as_scp, cx._as_scu = True, True
+        cxs[SIDE_CX] = cx
         self.assoc._accepted_cx = cxs
         self.assoc.is_established = True
+        self.side_served = 0
         self.sent, self.aborted = [], []
         self.fail_send = False
         self.assoc.dimse.send_msg = self._send
@@ -81,6 +87,7 @@ class Rig:
         self.assoc._abort_blocking = self.assoc._abort_nonblocking = self.assoc.abort = lambda: self.aborted.append(1)
         for e in (evt.EVT_C_FIND, evt.EVT_C_GET, evt.EVT_C_MOVE):
             self.assoc.bind(e, self._handler)
+        self.assoc.bind(evt.EVT_N_EVENT_REPORT, self._side_handler)
         self.outside = ServiceClass(self.assoc)  # for queries made outside any operation
         self.trace = []
         self.inner = None
@@ -114,6 +121,33 @@ class Rig:
             self.assoc.dimse.receive_primitive(pdata)
         self.snap()
 
+    def _side_handler(self, event):
+        self.side_served += 1
+        return 0x0000, None
+
+    def side(self):
+        """an N-EVENT-REPORT request is served to its end by the real `_serve_request` at this point of the
+        schedule (the real `receive_primitive` starts a thread for it; here the thread's whole run is one event)"""
+        from pydicom.dataset import Dataset
+        from pynetdicom.dimse_primitives import N_EVENT_REPORT
+        from pynetdicom.dsutils import encode
+
+        r = N_EVENT_REPORT()
+        r.MessageID = 4242
+        r.AffectedSOPClassUID = SIDE_UID
+        r.AffectedSOPInstanceUID = "1.2.840.10008.1.20.1.1"
+        r.EventTypeID = 1
+        ds = Dataset()
+        ds.TransactionUID = "1.2.3"
+        r.EventInformation = BytesIO(encode(ds, True, True))
+        n = self.side_served
+        paused = self.assoc._is_paused
+        self.assoc._serve_request(r, SIDE_CX)
+        self.assoc._is_paused = paused
+        if self.side_served != n + 1:
+            raise RuntimeError("the N-EVENT-REPORT handler was not reached")
+        self.snap()
+
     def _handler(self, event):
         self.handler_ran = True
         self.snap()  # the state the operation starts with (after the first clearing statement)
@@ -122,6 +156,8 @@ class Rig:
                 self.recv(it[1], it[2])
             elif it[0] == "qown":
                 self.snap(event.is_cancelled)
+            elif it[0] == "side":
+                self.side()
             elif it[0] == "other-assoc":
                 # a complete operation on ANOTHER association of the same process, while this one is in progress
                 it[1].op(it[2], it[3], [["qown"]], "ok")
@@ -165,13 +201,18 @@ def events_of(case):
     for it in case:
         if it[0] == "recv":
             evs.append(["recv", it[1]])
+        elif it[0] == "side":
+            evs.append("side")
         elif it[0] == "query":
             evs.append(["query", it[1]])
         else:
             _, kind, mid, inner, outcome = it
             evs.append(["begin", mid])
             for x in inner:
-                evs.append(["recv", x[1]] if x[0] == "recv" else ["query", mid if x[0] == "qown" else x[1]])
+                if x[0] == "side":
+                    evs.append("side")
+                else:
+                    evs.append(["recv", x[1]] if x[0] == "recv" else ["query", mid if x[0] == "qown" else x[1]])
             evs.append("end" if outcome == "ok" else "endraise")
     return evs
 
@@ -181,6 +222,8 @@ def execute(case):
     for it in case:
         if it[0] == "recv":
             rig.recv(it[1], it[2])
+        elif it[0] == "side":
+            rig.side()
         elif it[0] == "query":
             rig.query_outside(it[1])
         else:
@@ -207,6 +250,8 @@ def oracle(ctx, case, evs, trace):
             in_op = None
         elif e == "endraise":
             in_op = None
+        elif e == "side":
+            pass  # a request of another kind served meanwhile: the operation's pending cancels stay pending
         elif e[0] == "begin":
             pending.clear()
             in_op = e[1]
@@ -279,8 +324,10 @@ def gen_inner(rng, mid, pool, n, burst=0, burst_pool=()):
             inner.append(["recv", mid, gen_maxlen(rng)])
         elif x < 0.50:
             inner.append(["recv", rng.choice(pool), gen_maxlen(rng)])
-        elif x < 0.80:
+        elif x < 0.74:
             inner.append(["qown"])
+        elif x < 0.82:
+            inner.append(["side"])
         else:
             inner.append(["query", rng.choice(pool)])
     return inner
@@ -298,6 +345,8 @@ def gen_case(rng):
                 case.append(["recv", rng.choice(pool), gen_maxlen(rng)])
             elif x < 0.33:
                 case.append(["query", rng.choice(pool)])
+            elif x < 0.38:
+                case.append(["side"])
             else:
                 mid = rng.choice(pool)
                 case.append(["op", rng.choice(list(UIDS)), mid, gen_inner(rng, mid, pool, rng.randint(0, 6)),
@@ -343,7 +392,7 @@ def exhaustive_cases(depth):
     for n_before in range(0, 2):
         for before in itertools.product(atoms, repeat=n_before):
             for n_in in range(0, depth + 1):
-                for inner in itertools.product(atoms + [["qown"]], repeat=n_in):
+                for inner in itertools.product(atoms + [["qown"], ["side"]], repeat=n_in):
                     for outcome in ("ok", "raise"):
                         for n_after in range(0, 2):
                             for after in itertools.product(atoms[2:], repeat=n_after):
@@ -524,7 +573,9 @@ def e2e(ctx):
     from pydicom.dataset import Dataset
     from pynetdicom import AE, evt
     from pynetdicom.sop_class import PatientRootQueryRetrieveInformationModelFind as FIND
+    from pynetdicom.sop_class import StorageCommitmentPushModel as SC
 
+    reports = []
     seen = {}  # message id of a served request -> did its handler ever see is_cancelled
     started, release, hold = {}, {}, {}
     lock = threading.Lock()
@@ -540,7 +591,9 @@ def e2e(ctx):
         end = time.monotonic() + 10
         # phase 1: until the scenario releases the operation; phase 2: a last look
         while time.monotonic() < end:
-            if event.is_cancelled:
+            if mid >= 100:  # does not look before the scenario says so
+                gate(release, mid).wait(10)
+            elif event.is_cancelled:
                 hit = True
                 break
             if gate(release, mid).is_set():
@@ -554,12 +607,19 @@ def e2e(ctx):
     ident = Dataset()
     ident.QueryRetrieveLevel = "PATIENT"
     ident.PatientID = "*"
+    def report_handler(event):
+        reports.append(event.request.MessageID)
+        return 0x0000, None
+
     scp = AE()
     scp.add_supported_context(FIND)
-    server = scp.start_server(("127.0.0.1", 0), block=False, evt_handlers=[(evt.EVT_C_FIND, handler)])
+    scp.add_supported_context(SC)
+    server = scp.start_server(("127.0.0.1", 0), block=False,
+                              evt_handlers=[(evt.EVT_C_FIND, handler), (evt.EVT_N_EVENT_REPORT, report_handler)])
     port = server.socket.getsockname()[1]
     scu = AE()
     scu.add_requested_context(FIND)
+    scu.add_requested_context(SC)
 
     def wait(pred, what, t=10.0):
         end = time.monotonic() + t
@@ -634,7 +694,39 @@ def e2e(ctx):
         find(assoc, 9)
         find(assoc, 8)
 
+    def s_report(assoc, sa):
+        """the matching cancel is stored, then the peer's N-EVENT-REPORT request is served (in the thread
+        receive_primitive starts for it) while the C-FIND handler has not looked yet"""
+        def during():
+            assoc.send_c_cancel(105, query_model=FIND)
+            wait(lambda: 105 in sa.dimse.cancel_req, "cancel 105 stored")
+            # sent below the send_* API: send_n_event_report() would resume this requestor's reactor in the middle
+            # of its own C-FIND (the API is not made for nested calls) and the reactor would then steal the C-FIND
+            # response; the reactor stays paused (send_c_find paused it), so this thread is the only reader
+            from pynetdicom.dimse_primitives import N_EVENT_REPORT
+            from pynetdicom.dsutils import encode
+
+            info = Dataset()
+            info.TransactionUID = "1.2.3"
+            req = N_EVENT_REPORT()
+            req.MessageID = 4242
+            req.AffectedSOPClassUID = SC
+            req.AffectedSOPInstanceUID = "1.2.840.10008.1.20.1.1"
+            req.EventTypeID = 1
+            req.EventInformation = BytesIO(encode(info, True, True))
+            cx = next(c for c in assoc.accepted_contexts if c.abstract_syntax == SC)
+            n = len(reports)
+            assoc.dimse.send_msg(req, cx.context_id)
+            wait(lambda: len(reports) == n + 1, "N-EVENT-REPORT handler")
+            _, rsp = assoc.dimse.get_msg(block=True)
+            if type(rsp).__name__ != "N_EVENT_REPORT" or rsp.Status != 0x0000:
+                raise RuntimeError(f"e2e: N-EVENT-REPORT not answered ({rsp!r})")
+
+        find(assoc, 105, during)
+        wait(lambda: 105 in seen, "handler 105")
+
     try:
+        scenario("matching-during-then-event-report-served", s_report, {105: [True]})
         scenario("matching-during", s_match, {5: [True]})
         scenario("other-id-during-then-that-id", s_other, {5: [False], 6: [False]})
         scenario("before-operation", s_before, {7: [False]})
